@@ -39,6 +39,7 @@ from tlz import (
 
 from dask import config
 from dask._task_spec import (
+    Alias,
     GraphNode,
     List,
     Task,
@@ -142,8 +143,19 @@ def lazify_task(task, start=True):
             refs: defaultdict = defaultdict(int)
             for v in subgraph.values():
                 _count_references(v, refs)
+            # The output may be an alias of an inner key (a partition that
+            # ``concat`` or ``repartition`` hand on unchanged): then that inner
+            # key is the output and keeps its list as well.
+            outputs = {outkey}
+            target = outkey
+            while (
+                isinstance(subgraph.get(target), Alias)
+                and subgraph[target].target not in outputs
+            ):
+                target = subgraph[target].target
+                outputs.add(target)
             subgraph = {
-                k: lazify_task(v, refs[k] > 1)
+                k: lazify_task(v, k in outputs or refs[k] > 1)
                 for k, v in subgraph.items()
                 if k != outkey
             }
